@@ -78,6 +78,11 @@ FIXED = [
     ("C04", "9a4f555", "`new Array(NaN)`, `new Int8Array(-1)`, `Math.floor(Infinity)`, `Math.sin(Infinity)`, `Math.exp(1000)`, `parseInt('ff', NaN)`, `String.fromCharCode(-1)` raised host exceptions out of eval"),
     ("C17", "9a4f555", "Array/typed array/ArrayBuffer constructors with NaN, negative, fractional or infinite lengths and offsets"),
     ("C18", "9a4f555", "Math functions of NaN/Infinity, Math.imul/clz32 of NaN, parseInt radix handling"),
+    ("C10", "822e975", "`new RegExp('a{99999999}')` compiled a hundred-million-instruction program and `(?:){999999999}` looped a billion times, with no bound and no deadline poll"),
+    ("C17", "79da313", "`var a=[1,2]; a[5]=1` stored a string property '5' instead of throwing: out-of-bound writes are errors in the documented stricter mode"),
+    ("C08", "6efef46", "`function F(){}; F.prototype={y:2}; new F().y` was undefined and `F.z=3; F.z` too: property writes on functions were dropped"),
+    ("C08", "010a6d1", "`({})+1`, `var t=({}).toString; t()` raised a Python TypeError out of eval; this-taking natives used as callbacks, getters, setters or comparators received the wrong this"),
+    ("C04", "010a6d1", "`({})+1` raised TypeError: JSBoundMethod.__call__() missing 1 required positional argument out of eval"),
     ("C04", "5541b57", "`a.reduce(function(acc,x){a.pop();return acc+x})` (and reduceRight) let a raw IndexError escape: the loop bound was computed before the callbacks ran"),
 ]
 
